@@ -23,6 +23,10 @@ CHECKS = {
             "About 60 hand-built values covering every Go kind (incl. typed nil pointers, pointer-to-nil-pointer, nested Maybe, None) and thousands of PRNG-nested values are wrapped by Maybe.Just, JustGenerics[any] and JustGenerics[T] for 21 concrete T; every MaybeDef method and the extra conversions run under recover; observers are compared with the reference predicate, monad-law instances by observation tuples, ToMaybe by nesting depth, Clone by pointer identity/deep equality/write isolation.",
             "Trusted: the reflect-based absent() predicate and observational equality (funcs by code pointer, NaN-tolerant).",
             "DESIGN.md section 5, C01"),
+    "C05": ("exploration", "set-model law oracle + differential twin oracle over bounded-exhaustive operand tuples",
+            "All pairs/triples of lists up to length 3 (thorough 4) over 3 symbols plus nil and all 81x81 pairs of key->stream maps (<=2 keys, streams <=2, nil and empty streams) plus PRNG operands: membership / no-duplicate / order laws for non-empty operands through slices, Stream, MapSet and StreamSet, and every generic function or method against its interface{} twin for all operands incl. nil/empty.",
+            "Trusted: the finite-set model (has/noDup/order predicates) and the normalisation used to compare twins (values that differ by design are ignored).",
+            "DESIGN.md section 5, C05"),
 }
 
 NOT_YET = "check not built yet in this session (runtime monitoring applies; see DESIGN.md section 5)"
